@@ -836,6 +836,7 @@ func equalPayloadLimitRun(cc, n int, allEqual bool) (parked int, incon string) {
 }
 
 func runC08(c *Cfg) {
+	runSpecial(c, "C08", "limit-with-retry-settings")
 	r := c.Rep
 	if RaceEnabled {
 		runBatchRace(c, "C08")
